@@ -244,7 +244,7 @@ def threaded(F, body, max_chain=20):
                                     fld = q["p"][1].split("|", 3)[3]
                                     if fld.isdigit() and int(fld) < len(xv[3]):
                                         v = xv[3][int(fld)]
-                    elif rv["k"] == "agg" and rv.get("ak") == "adt" and rv.get("adt") in _SUMS:
+                    elif rv["k"] == "agg" and rv.get("ak") == "adt" and "vi" in rv:
                         # a freshly built Ok(..)/Err(..)/Some(..)/None, with what is known about its payload
                         v = ("v", rv["adt"], int(rv["vi"]),
                              tuple(env.get(mir.op_local(o)) if mir.op_local(o) is not None else mir.op_const(o) for o in rv["ops"]))
